@@ -453,6 +453,7 @@ func cmdRun(args []string) int {
 		err   error
 		code  int
 		stderr string
+		timedOut bool
 	}
 	results := make([]wres, *workers)
 	var wg sync.WaitGroup
@@ -481,6 +482,15 @@ func cmdRun(args []string) int {
 				results[i].err = err
 				return
 			}
+			// a worker that is still busy long after its search and shrink budgets
+			// (code under test that blows up in time or memory) is ended; what it
+			// reported so far stays, the rest of it counts as trouble
+			limit := time.Duration(*budgetS)*time.Second + 10*shrinkBudget + time.Minute
+			killer := time.AfterFunc(limit, func() {
+				results[i].timedOut = true
+				cmd.Process.Kill()
+			})
+			defer killer.Stop()
 			sc := bufio.NewScanner(out)
 			sc.Buffer(make([]byte, 1<<20), 64<<20)
 			for sc.Scan() {
@@ -527,7 +537,18 @@ func cmdRun(args []string) int {
 	for i, r := range results {
 		if r.err != nil || r.stats == nil {
 			trouble = true
-			fmt.Fprintf(os.Stderr, "simcheck: worker %d failed (%v):\n%s\n", i, r.err, tail(r.stderr, 6000))
+			if r.timedOut {
+				fmt.Fprintf(os.Stderr, "simcheck: worker %d was still busy long after its budgets and was ended; violations it had reported (%d) are kept\n", i, len(r.viols))
+			} else {
+				fmt.Fprintf(os.Stderr, "simcheck: worker %d failed (%v):\n%s\n", i, r.err, tail(r.stderr, 6000))
+			}
+			// a violation that reproduced from its own tapes is evidence whatever
+			// happened to the worker afterwards
+			for _, v := range r.viols {
+				if v.Repro {
+					viols = append(viols, v)
+				}
+			}
 			continue
 		}
 		s := r.stats
@@ -559,11 +580,22 @@ func cmdRun(args []string) int {
 		readHashes(s.HashFile, schedSet, histSet)
 		viols = append(viols, r.viols...)
 	}
-	if trouble {
-		fmt.Fprintln(os.Stderr, "simcheck: machinery trouble, no verdict")
-		return 2
-	}
 	known := knownSigs(*prop)
+	if trouble {
+		// without any new, reproduced violation there is no verdict; with one, the
+		// violation stands (exit 1 below) and the trouble is reported beside it
+		fresh := false
+		for _, v := range viols {
+			if _, isKnown := known[v.Sig]; v.Repro && !isKnown {
+				fresh = true
+			}
+		}
+		if !fresh {
+			fmt.Fprintln(os.Stderr, "simcheck: machinery trouble, no verdict")
+			return 2
+		}
+		fmt.Fprintln(os.Stderr, "simcheck: some workers did not finish; reporting the violations that reproduced")
+	}
 	// report
 	exit := 0
 	seen := map[string]bool{}
